@@ -48,6 +48,20 @@ TECH_TRC = ("Lean 4 machine-checked proof; the codec bodies (HighRate/LowRate en
             "the algebra (field, FFT, Cauchy form, round trip) on a hand-written model + differential correspondence with the crate")
 
 
+def gen_src_engine():
+    """C03: regenerate lean/RSVerif/Gen/SrcEngine.lean from the loop nests of the four engine families"""
+    out = os.path.join(VERIF, "lean", "RSVerif", "Gen", "SrcEngine.lean")
+    p = subprocess.run([sys.executable, os.path.join(VERIF, "translate", "rs2lean_engine.py"), "/repo", out],
+                       stdout=subprocess.PIPE, stderr=subprocess.STDOUT, text=True)
+    return p.returncode, p.stdout
+
+
+TECH_TRE = ("Lean 4 machine-checked proof; the transform loop nests of the Naive / NoSimd / Ssse3 / Avx2 engines (nested while/for "
+            "loops, skew-table indexes, dist2_mut / dist4_mut / split_at_mut views, GF_MODULUS shortcuts) are TRANSLATED from the "
+            "current Rust source on every run (translate/rs2lean_engine.py -> Gen/SrcEngine.lean: shard-operation programs) and "
+            "proved equal to the model transforms; kernels and the rest on a hand-written model + differential correspondence")
+
+
 def gen_statics():
     """C05 / C16: regenerate lean/RSVerif/Gen/Statics.lean (global state declared in today's source)"""
     out = os.path.join(VERIF, "lean", "RSVerif", "Gen", "Statics.lean")
@@ -128,6 +142,7 @@ PROPS = {
         "either schedule. Direct oracle: engine vs engine (6 engines incl. Neon source on emulated intrinsics) on primitives (contract-valid "
         "outputs + frame) and end to end; model schedule vs implementation lane by lane.",
         "cases = primitive calls (fft/ifft/mul/eval_poly with generated parameters) on every engine + mixed-engine round trips; distinct by parameters",
+        pre_lean=gen_src_engine, technique=TECH_TRE, extra_targets=["srcengine"],
         design_ref="DESIGN.md §6 C03",
     ),
     "C04": P(
@@ -231,6 +246,7 @@ PROPS = {
         "selection code through a source port. Cannot exhibit an actual illegal-instruction trap (this CPU has AVX2).",
         "cases = feature masks (exhaustive) x workload",
         exhaustive=True,
+        pre_lean=gen_statics,
         design_ref="DESIGN.md §6 C14",
     ),
     "C15": P(
